@@ -149,6 +149,8 @@ def shard(binpath, seed, sh, n):
         cls = [m["cls"], f"{c['kind']}:{r}"]
         if m["ts"]:
             cls.append(f"with_timestamp:{r}")
+        if any(f'"{a}": "' in c["text"] for a in attgen.OTHER_ALGS):
+            cls.append(f"digest_under_other_algorithm_name:{r}")
         res.note([c["text"]], r == "accepted" or m["cls"].startswith(("v01:mismatch", "mutated")), cls=cls)
         if r == "rejected" and m["ts"] and not m["cls"].startswith("mutated"):
             t = copy.deepcopy(c)
@@ -181,7 +183,11 @@ def from_meta(binpath, res, seed, n):
         if rng.random() < 0.5:
             cases.append({"op": "from_meta", "link": link, "ver": "naive", "meta": {}})
         else:
-            t, p = attgen.gen_predicate(rng, False)
+            attgen.PLAIN[0] = True        # a predicate value the library can hold (sha256 / sha512 digests only)
+            try:
+                t, p = attgen.gen_predicate(rng, False)
+            finally:
+                attgen.PLAIN[0] = False
             cases.append({"op": "from_meta", "link": link, "ver": "v01", "pred": p, "meta": {"ptype": t}})
     obs = common.run_batch(binpath, cases, keys=False)
     for c, o in zip(cases, obs):
